@@ -121,6 +121,52 @@ CHECKS = {
         'design_ref': 'DESIGN.md 4 (C10)',
         'note': 'compiled kernels on real threads are compared only at the thorough tier (minutes of compilation)',
     },
+    'C01': {
+        'engine': 'E2-world',
+        'technique': 'deterministic simulation of storage: seeded world model with uniquely tagged particles written by a '
+                     'stub writer, read back by the real loader under seeded environment faults, particle-by-particle oracle',
+        'text': 'every particle carries a serial number encoded redundantly in position, velocity and PID, so each loaded '
+                'particle is attributed to exactly one written particle; per halo row and subsample the slice must decode '
+                'to the model list (originals, none if cleaned away, then merged), slices contiguous in row order with A '
+                'before B, table length = sum of counts; repeated under a second allocator poison (bitwise identical) and '
+                'with the files byte-identical afterwards. Environment faults: io_block_size 1..4096, blsc framing with '
+                'tiny compression blocks, shuffled listings, junk files, path spellings, file lists in any order.',
+        'design_ref': 'DESIGN.md 4 (C01), 2.3',
+        'note': 'no threads involved: the simulator owns storage and the allocator; worlds <= 4 slabs x 6 halos x 8 particles; '
+                'light-cone layout not yet covered',
+    },
+    'C02': {
+        'engine': 'E2-world',
+        'technique': 'deterministic simulation of storage + poisoned allocator: many loads of one seeded world with varied '
+                     'field requests, bitwise comparison per column',
+        'text': 'for seeded target columns (all user / cleaning / main-progenitor names) the column is loaded alone, with '
+                'seeded co-requested columns in two orders, via all and via the default set, with and without subsamples, '
+                'cleaned on/off; no load may raise and the column must be bitwise equal to the fields=all load. The '
+                'poisoned np.empty makes a wrong temporary dtype or a read-before-fill repeatable.',
+        'design_ref': 'DESIGN.md 4 (C02)',
+        'note': 'npstart*/npout* and their _merge companions are exempt when subsamples are loaded (re-indexed / consumed by definition)',
+    },
+    'C03': {
+        'engine': 'E2-world',
+        'technique': 'deterministic simulation of storage: seeded file subsets/orders and seeded row masks as filter '
+                     'functions, checked against the world model and against single-file / unfiltered loads',
+        'text': 'combined load = concatenation of single-file loads (bitwise per column) and = world model rows and particle '
+                'serial lists; filtered load = mask applied to the unfiltered load and = model restricted to the kept halos, '
+                'incl. keep-nothing, keep-all, empty one slab, filters on N (cleaned: N_total); duplicate and mixed file '
+                'lists must be rejected.',
+        'design_ref': 'DESIGN.md 4 (C03)',
+        'note': 'table truncation via ndarray.resize moving the buffer cannot be forced and is not explored',
+    },
+    'C05': {
+        'engine': 'E2-world',
+        'technique': 'simulated storage with independently drawn BoxSize / VelZSpace_to_kms and stored values; documented-'
+                     'formula oracle under both unit options (thin use of the simulator, stated)',
+        'text': 'every modelled column of a fields=all or subset load is compared with the documented formula applied to '
+                'the stored values under convert_units on and off; Min^2+Mid^2+Maj^2 = sigmav3d^2; int16 extremes '
+                'generated. The simulator contributes the storage state and the poisoned temporaries only.',
+        'design_ref': 'DESIGN.md 4 (C05)',
+        'note': 'eigenvector columns are outside the oracle (C18 not claimed); float32 tolerances stated in the evidence',
+    },
 }
 
 NOT_APPLICABLE = {
@@ -131,5 +177,5 @@ NOT_APPLICABLE = {
            'no chunking, interleaving or fault for a simulator to vary',
     'C18': 'pure function on a finite domain of 65340 codes: complete enumeration, which is not simulation',
 }
-for _p in ('C01', 'C02', 'C03', 'C05', 'C11', 'C12', 'C16', 'C19', 'C20'):
+for _p in ('C11', 'C12', 'C16', 'C19', 'C20'):
     NOT_APPLICABLE.setdefault(_p, PENDING)
